@@ -323,8 +323,20 @@ def _locate_droplets_in_mask_cylindrical(mask: ScalarField) -> Emulsion:
 
             _logger.info("Kept %d central droplets.", len(droplets))
 
-            # filter overlapping droplets (e.g. due to duplicates)
-            droplets.remove_overlapping()
+            # filter overlapping droplets (e.g. due to duplicates). All droplets lie on
+            # the symmetry axis, so their distance is measured along the periodic z-axis
+            while len(droplets) > 1:
+                pos_z = np.array([droplet.position[2] for droplet in droplets])
+                radii = np.array([droplet.radius for droplet in droplets])
+                dists = np.abs(pos_z[:, None] - pos_z[None, :])
+                dists = np.minimum(dists, grid.length - dists)
+                dists -= radii[:, None] + radii[None, :]
+                np.fill_diagonal(dists, np.inf)
+                x, y = np.unravel_index(np.argmin(dists), dists.shape)
+                if dists[x, y] >= 0:
+                    break
+                # droplets overlap -> remove the smaller one
+                droplets.pop(y if droplets[x].radius > droplets[y].radius else x)
             return droplets
 
     # simply locate droplets in the mask
